@@ -132,7 +132,10 @@ func c3genHterm(r *RNG, j *c3hjob) c3hterm {
 }
 
 // c3regimeCells: the rows of one batch.
-func c3regimeCells(r *RNG, n int, regime byte) []c3val {
+func c3regimeCells(r *RNG, n int, regime byte, calls []c3call) []c3val {
+	if regime == 'o' { // large-offset numbers (c03big.go): every numeric condition over small literals is decided by the sign
+		return c3genOffsetVals(r, n, c3offMixed(calls))
+	}
 	out := make([]c3val, n)
 	for i := range out {
 		switch regime {
@@ -193,12 +196,16 @@ func c3genHaving(r *RNG) *c3hjob {
 		j.terms = append(j.terms, c3genHterm(r, j))
 	}
 	nb := r.Range(3, 7)
+	offset := r.Intn(5) == 0 // a fifth of the runs have batches of large-offset numbers among the others
 	var reg []byte
 	// runs of regimes: a rejected stretch of 1-3 batches followed by passing ones is the common picture
 	for len(reg) < nb {
 		g := "lhzx"[r.Intn(4)]
 		if r.Intn(2) == 0 {
 			g = "lh"[r.Intn(2)]
+		}
+		if offset && r.Intn(3) == 0 {
+			g = 'o'
 		}
 		for c := r.Range(1, 3); c > 0 && len(reg) < nb; c-- {
 			reg = append(reg, g)
@@ -220,7 +227,7 @@ func c3genHaving(r *RNG) *c3hjob {
 	}
 	j.regimes = string(reg)
 	for _, g := range reg {
-		j.cells = append(j.cells, c3regimeCells(r, j.n, g)...)
+		j.cells = append(j.cells, c3regimeCells(r, j.n, g, append(append([]c3call{}, j.calls...), j.hidden...))...)
 	}
 	return j
 }
@@ -305,6 +312,9 @@ func c3having(rng *RNG, tier string, o *Out) error {
 		o.Line("C03 H %d %d %s # %d %s # %s # %s # %s", j.n, len(j.calls), c3callSpec(j.calls), len(j.hidden), c3callSpec(j.hidden),
 			j.predTok(), c3toks(j.cells), j.result)
 		o.Count("sqlhaving_" + j.form)
+		if strings.ContainsRune(j.regimes, 'o') {
+			o.Count("sqlhaving_offset_batches")
+		}
 		for _, t := range j.terms {
 			o.Count("sqlhaving_ref_" + t.kind)
 		}
